@@ -201,10 +201,11 @@ func krRot(r *rng, id string, n int) {
 	// keyring) and "can talk" is judged on real packets and streams as well
 	var nodes []*cnode
 	if r.chance(1, 3) {
-		secret := r.chance(1, 2)
+		mode := r.intn(3) // keyring only / SecretKey only / both (the application keeps the keyring it handed in)
+		secret := mode >= 1
 		comp := r.chance(1, 2)
 		for i := range rings {
-			nd, err := newCnode(ccfg{name: fmt.Sprintf("k%d", i), key: old, secretKey: secret, label: "lbl", verifyIn: true, verifyOut: true, compress: comp})
+			nd, err := newCnode(ccfg{name: fmt.Sprintf("k%d", i), key: old, secretKey: secret, ringToo: mode == 2, label: "lbl", verifyIn: true, verifyOut: true, compress: comp})
 			if err != nil || nd.kr == nil {
 				for _, x := range nodes {
 					x.m.Shutdown()
@@ -232,6 +233,12 @@ func krRot(r *rng, id string, n int) {
 		pk := snd.tr.take()
 		rcv.del.take()
 		if len(pk) != 1 || rcv.ingest(pk[0]) {
+			return false
+		}
+		// what left the node is sealed under the primary key of the keyring the application rotates
+		if ct, _, err := ml.RemoveLabelHeaderFromPacket(pk[0]); err != nil {
+			return false
+		} else if _, err := ml.VerifDecryptPayload([][]byte{rings[s].GetPrimaryKey()}, ct, []byte("lbl")); err != nil {
 			return false
 		}
 		if got := rcv.del.take(); len(got) != 1 || !bytes.Equal(got[0], pm) {
@@ -344,6 +351,115 @@ func krRot(r *rng, id string, n int) {
 		strings.Join(steps, ","), strings.Join(states, ";"), strings.Join(talks, ","))
 }
 
+// krConc: two keyring calls started at the same instant on two goroutines, many rounds per case; each
+// round's results and final ring must be explained by one of the two sequential orders.
+func krConc(r *rng, id string) {
+	pool := &krPool{}
+	for i := 0; i < 4; i++ {
+		pool.keys = append(pool.keys, r.bytes([]int{16, 24, 32, 16}[i]))
+	}
+	poolHex := make([]string, len(pool.keys))
+	for i, k := range pool.keys {
+		poolHex[i] = hx(k)
+	}
+	kinds := []string{"add", "use", "remove"}
+	call := func(kr *ml.Keyring, kind string, k []byte) (res string) {
+		defer func() {
+			if rec := recover(); rec != nil {
+				res = "panic"
+			}
+		}()
+		switch kind {
+		case "add":
+			return errTok(kr.AddKey(k))
+		case "use":
+			return errTok(kr.UseKey(k))
+		default:
+			return errTok(kr.RemoveKey(k))
+		}
+	}
+	// the pair is fixed per case (the interesting ones first), the race is repeated
+	ka, kb := kinds[r.intn(3)], kinds[r.intn(3)]
+	ia, ib := 1+r.intn(3), 1+r.intn(3)
+	nring := 1 + r.intn(3)
+	rounds := 3000
+	if r.chance(1, 2) {
+		// promote and retire the same installed secondary key
+		nring = 3
+		ia = 1 + r.intn(2)
+		ka, kb, ib = "use", "remove", ia
+		rounds = 20000
+	}
+	bad := ""
+	for round := 0; round < rounds && bad == ""; round++ {
+		kr, _ := ml.NewKeyring(pool.keys[1:1+nring-1], pool.keys[0])
+		if kr == nil {
+			return
+		}
+		ring0 := pool.ring(kr.GetKeys())
+		var ra, rb string
+		start := make(chan struct{})
+		done := make(chan struct{}, 2)
+		go func() { <-start; ra = call(kr, ka, pool.keys[ia]); done <- struct{}{} }()
+		go func() { <-start; rb = call(kr, kb, pool.keys[ib]); done <- struct{}{} }()
+		close(start)
+		<-done
+		<-done
+		final := pool.ring(kr.GetKeys())
+		line := fmt.Sprintf("C17 conc id=%s pool=%s ring0=%s a=%s:%d:%s b=%s:%d:%s final=%s", id, strings.Join(poolHex, ","), ring0, ka, ia, ra, kb, ib, rb, final)
+		// only the first round and any round whose outcome differs from it are emitted (the driver judges each)
+		if round == 0 {
+			emit("%s", line)
+		} else if !krConcLegal(pool, kr, ring0, ka, ia, ra, kb, ib, rb, final) {
+			emit("%s", strings.Replace(line, "id="+id, fmt.Sprintf("id=%s.%d", id, round), 1))
+			bad = "x"
+		}
+	}
+}
+
+// krConcLegal replays the two calls sequentially on fresh real keyrings in both orders (the real code is
+// its own sequential reference here; the Lean model judges every emitted line independently).
+func krConcLegal(pool *krPool, _ *ml.Keyring, ring0 string, ka string, ia int, ra string, kb string, ib int, rb string, final string) bool {
+	try := func(firstA bool) bool {
+		var idx []int
+		for _, t := range strings.Split(ring0, ".") {
+			var i int
+			if _, err := fmt.Sscanf(t, "%d", &i); err != nil {
+				return true // unexpected ring syntax: leave the verdict to the driver
+			}
+			idx = append(idx, i)
+		}
+		var keys [][]byte
+		for _, i := range idx[1:] {
+			keys = append(keys, pool.keys[i])
+		}
+		kr, err := ml.NewKeyring(keys, pool.keys[idx[0]])
+		if err != nil {
+			return true
+		}
+		do := func(kind string, k []byte) string {
+			switch kind {
+			case "add":
+				return errTok(kr.AddKey(k))
+			case "use":
+				return errTok(kr.UseKey(k))
+			default:
+				return errTok(kr.RemoveKey(k))
+			}
+		}
+		var xa, xb string
+		if firstA {
+			xa = do(ka, pool.keys[ia])
+			xb = do(kb, pool.keys[ib])
+		} else {
+			xb = do(kb, pool.keys[ib])
+			xa = do(ka, pool.keys[ia])
+		}
+		return xa == ra && xb == rb && pool.ring(kr.GetKeys()) == final
+	}
+	return try(true) || try(false)
+}
+
 func TestC17(t *testing.T) {
 	nseq, nrot := envInt("VERIF_N", 4000), 300
 	if thorough() {
@@ -351,4 +467,5 @@ func TestC17(t *testing.T) {
 	}
 	forCases(nseq, 17, "s", func(i int, r *rng, id string) { krSeq(r, id, 1+r.intn(24)) })
 	forCases(nrot, 18, "r", func(i int, r *rng, id string) { krRot(r, id, 2+r.intn(5)) })
+	forCases(nrot/10+4, 19, "c", func(i int, r *rng, id string) { krConc(r, id) })
 }
